@@ -446,7 +446,7 @@ func checkC03(c *Ctx) {
 	ruleR12(c, dv, modes, "R3.3b")
 	ruleR13(c, dv, "R3.3c")
 	ruleCounterInit(c, dv, "R3.3d")
-	ruleR14(c, dv, "R3.8")                                             // every holder's release reaches NoteOff (or finds the tracker empty)
+	ruleR14(c, dv, "R3.8")                                            // every holder's release reaches NoteOff (or finds the tracker empty)
 	c.importRules(checkC14, []string{"R14.4"}, "R3.9")                // every holder's press reaches NoteOn: no filter in front of the dispatch drops it
 	c.importRules(transportRules, []string{"R15.1", "R15.2"}, "R3.6") // the per-mode emission must arrive as emitted: relays forward every message exactly once, unaltered
 	ruleR16(c, dv, modes, "R3.5")
